@@ -212,6 +212,10 @@ where
                 return Err(invalid_hole_err(hole_pos));
             }
             nodes.extend(compact_nodes.by_ref().take(hole_pos - node_pos));
+            if nodes.len() != hole_pos {
+                // not enough nodes in front of this hole
+                return Err(invalid_hole_err(hole_pos));
+            }
             nodes.push(Node {
                 weight: None,
                 next: [EdgeIndex::end(); 2],
